@@ -3,6 +3,7 @@
 Counter semantics from NIST SP 800-38A B.1 (standard incrementing function on the m-bit counter field, here m = 8 *
 counter_len, big or little endian as chosen by the caller)."""
 from vf.cvc.contracts import Registry
+from contracts.c import blockcipher
 
 ERR_NULL = 1
 ERR_MEMORY = 2
@@ -13,6 +14,7 @@ ERR_CTR_REPEATED_KEY_STREAM = (6 << 16) | 2
 def registry():
     R = Registry('raw_ctr')
     R.file = 'src/raw_ctr.c'
+    blockcipher.add_to(R)
 
     # The counter field p[0..n) read as an integer v (big or little endian).  Two equivalent statements of "v becomes
     # (v + a) mod 256**n": the readable one (`value`, proved for the leaf functions) and the LEFT-ALIGNED one used by callers,
@@ -45,4 +47,76 @@ def registry():
                   'block0': 'not null(result) ==> all(result[k] == counter_block0[k] for k in range(block_len))',
                   'counters': 'not null(result) ==> all(aligned(result + j * block_len + prefix_len, counter_len, big) == '
                               'u128(aligned(result + prefix_len, counter_len, big) + j * unit(counter_len)) for j in range(8))'})
+
+    # ------------------------------------------------------------------ the CTR state
+    GEOM = [(bl, p) for bl in (16, 8) for p in range(bl)]
+    SHAPE = {'ctr_state': 'struct', 'ctr_state.cipher': 'struct', 'ctr_state.cipher.encrypt': 'fn:block_encrypt',
+             'ctr_state.counter_blocks': 'u8[8 * ctr_state.cipher.block_len]',
+             'ctr_state.counter': 'into:ctr_state.counter_blocks',
+             'ctr_state.keystream': 'u8[8 * ctr_state.cipher.block_len]'}
+    cfgs_state = [{'name': 'bl%d.p%d' % (bl, p), 'set': {'ctr_state.cipher.block_len': bl}, 'offsets': {'ctr_state.counter': p}}
+                  for bl, p in GEOM]
+    R.define('prefix(s)', 'offset(s.counter) - offset(s.counter_blocks)')
+    R.define('geometry(s)', '1 <= s.counter_len and s.counter_len <= 16 and prefix(s) + s.counter_len <= s.cipher.block_len '
+                            'and offset(s.counter) >= offset(s.counter_blocks)')
+    R.define('big(s)', 's.little_endian == 0')
+    R.define('field(s, j)', 's.counter_blocks + j * s.cipher.block_len + prefix(s)')
+    # keystream buffer == E_K of the eight counter blocks
+    R.define('ks_fresh(s)', 'all(s.keystream[k] == ek(s.counter_blocks + (k // s.cipher.block_len) * s.cipher.block_len, '
+                            's.cipher.block_len, k % s.cipher.block_len) for k in range(8 * s.cipher.block_len))')
+    # block j is block 0 with the counter field advanced by j
+    R.define('blocks_consecutive(s)',
+             'all(outside(k % s.cipher.block_len, prefix(s), s.counter_len) ==> s.counter_blocks[k] == s.counter_blocks[k % s.cipher.block_len] '
+             'for k in range(8 * s.cipher.block_len)) and '
+             'all(aligned(field(s, j), s.counter_len, big(s)) == u128(aligned(field(s, 0), s.counter_len, big(s)) + j * unit(s.counter_len)) '
+             'for j in range(8))')
+
+    R.fn('update_keystream', regions=SHAPE, configs=cfgs_state,
+         modifies=['ctr_state.counter_blocks', 'ctr_state.keystream', 'ctr_state.used_ks'],
+         requires={'geometry': 'geometry(ctr_state)'},
+         ensures={'template': 'all(outside(k % ctr_state.cipher.block_len, prefix(ctr_state), ctr_state.counter_len) ==> '
+                              'ctr_state.counter_blocks[k] == old(ctr_state.counter_blocks[k]) for k in range(8 * ctr_state.cipher.block_len))',
+                  'counters': 'all(aligned(field(ctr_state, j), ctr_state.counter_len, big(ctr_state)) == '
+                              'u128(old(aligned(field(ctr_state, j), ctr_state.counter_len, big(ctr_state))) + 8 * unit(ctr_state.counter_len)) '
+                              'for j in range(8))',
+                  'keystream': 'ks_fresh(ctr_state)',
+                  'used': 'ctr_state.used_ks == 0'})
+
+    R.fn('create_keystream', allocates=True, alloc_result='u8[block_len * 8]', escapes=['result'],
+         regions={'cipher': 'struct', 'cipher.encrypt': 'fn:block_encrypt', 'counter_blocks': 'u8[8 * block_len]'},
+         configs=[{'name': 'bl%d' % bl, 'set': {'block_len': bl, 'cipher.block_len': bl}} for bl in (16, 8)],
+         requires={'block_len': 'block_len == cipher.block_len'},
+         ensures={'keystream': 'not null(result) ==> all(result[k] == ek(counter_blocks + (k // block_len) * block_len, block_len, k % block_len) '
+                               'for k in range(8 * block_len))'})
+
+    # ------------------------------------------------------------------ CTR_start_operation
+    R.define('bad_geometry(bl, cb0_len, prefix_len, counter_len)',
+             'bl != cb0_len or counter_len == 0 or counter_len > bl or bl < prefix_len + counter_len')
+    # SP 800-38A B.2: at most 256**counter_len blocks, i.e. block_len * 256**counter_len bytes; as a 128-bit pair.
+    # For a 16-byte counter the product does not fit and the pair is 0 = "no limit below 2**128 bytes".
+    R.define('limit(s)', 's.length_max_hi * 2**64 + s.length_max_lo')
+    R.define('position(s)', 's.length_hi * 2**64 + s.length_lo')
+    cfgs_start = [{'name': 'bl%d.p%d' % (bl, p), 'set': {'cipher.block_len': bl, 'prefix_len': p}} for bl, p in GEOM]
+    cfgs_start += [{'name': 'bl%d.prefix_too_long' % bl, 'set': {'cipher.block_len': bl}, 'assume': ['prefix_len >= %d' % bl]} for bl in (16, 8)]
+    cfgs_start += [{'name': 'null_' + n, 'null': [n], 'set': {'cipher.block_len': 16}} for n in ('counter_block0', 'pResult')]
+    cfgs_start += [{'name': 'null_cipher', 'null': ['cipher']}]
+    R.fn('CTR_start_operation', allocates=True, configs=cfgs_start, escapes=['pResult[0]'],
+         regions={'cipher': 'struct', 'cipher.encrypt': 'fn:block_encrypt', 'counter_block0': 'u8[counter_block0_len]', 'pResult': 'cell'},
+         # the length test `block_len < prefix_len + counter_len` is computed in size_t and wraps for prefix_len >= 2**64 - counter_len
+         # (see NOTES.md, finding F-CTR-1); every caller passes len(prefix) <= block_len
+         requires={'prefix_small': 'prefix_len <= 4294967295'},
+         ensures={
+             'null_args': '(null(cipher) or null(counter_block0) or null(pResult)) ==> result == %d' % ERR_NULL,
+             'arg_check': 'not (null(cipher) or null(counter_block0) or null(pResult)) ==> '
+                          '((result == %d) <==> bad_geometry(cipher.block_len, counter_block0_len, prefix_len, counter_len))' % ERR_CTR_COUNTER_BLOCK_LEN,
+             'codes': 'result == 0 or result == %d or result == %d or result == %d' % (ERR_NULL, ERR_MEMORY, ERR_CTR_COUNTER_BLOCK_LEN),
+             'memory': 'result == %d ==> alloc_failed' % ERR_MEMORY,
+             'state': 'result == 0 ==> (pResult[0].cipher == cipher and pResult[0].counter_len == counter_len and '
+                      'pResult[0].little_endian == little_endian and pResult[0].used_ks == 0 and position(pResult[0]) == 0 and '
+                      'pResult[0].counter == pResult[0].counter_blocks + prefix_len and offset(pResult[0].counter_blocks) == 0 and '
+                      'len(pResult[0].counter_blocks) == 8 * cipher.block_len and len(pResult[0].keystream) == 8 * cipher.block_len)',
+             'limit': 'result == 0 ==> limit(pResult[0]) == (0 if counter_len == 16 else cipher.block_len * pow2(8 * counter_len, 128))',
+             'block0': 'result == 0 ==> all(pResult[0].counter_blocks[k] == counter_block0[k] for k in range(cipher.block_len))',
+             'blocks': 'result == 0 ==> blocks_consecutive(pResult[0])',
+             'keystream': 'result == 0 ==> ks_fresh(pResult[0])'})
     return R
